@@ -21,7 +21,7 @@ Record closed : Prop := {
   c_dropped : forall t k w, I w -> lookup_storage t w = LDead -> I (rn_dropped t k w);
   c_missing : forall t k w, I w -> lookup_storage t w = LNoStorage -> I (rn_despawn_missing t k w);
   c_despawn : forall t w, I w -> I (despawn t w);
-  c_cbbump : forall t cb b w, I w -> alookup t (cbs w) = Some cb -> I (cb_bump t cb b w);
+  c_cbbump : forall t cb b w, I w -> alookup t (cbs w) = Some cb -> bump_ok cb b = true -> I (cb_bump t cb b w);
   c_oncefin : forall t tk w, I w -> I (once_finish t tk w);
   c_body : forall sd t r c w, body_guard t r c w = true -> I w -> I (body_begin P sd t r c w);
   c_clear : forall w, I w -> I (clear_trackers w);
@@ -126,12 +126,12 @@ Proof.
     inversion E; subst. apply (c_emit HC). exact H6.
   - (* ICallback *)
     destruct (alookup t (cbs w)) as [cb|] eqn:EC; [|discriminate E].
-    destruct (cb_once cb) as [tk|].
-    + destruct (cb_taken cb); [inversion E; subst; exact Hw|].
-      bind_inv E w1 E1. assert (H1 : I w1) by (eapply IH; [|exact E1]; apply (c_cbbump HC); [exact Hw|exact EC]).
+    destruct (cb_once cb) as [tk|] eqn:Eonce.
+    + destruct (cb_taken cb) eqn:Etk; [inversion E; subst; exact Hw|].
+      bind_inv E w1 E1. assert (H1 : I w1) by (eapply IH; [|exact E1]; apply (c_cbbump HC); [exact Hw|exact EC|unfold bump_ok; rewrite Eonce, Etk; reflexivity]).
       bind_inv E w2 E2. assert (H2 : I w2) by (eapply IH; [|exact E2]; apply (c_despawn HC); exact H1).
       inversion E; subst. apply (c_oncefin HC). exact H2.
-    + eapply IH; [|exact E]. apply (c_cbbump HC); [exact Hw|exact EC].
+    + eapply IH; [|exact E]. apply (c_cbbump HC); [exact Hw|exact EC|unfold bump_ok; rewrite Eonce; reflexivity].
   - (* IBody *)
     cbn zeta in E. set (sd := sys_or_default P t) in *.
     destruct (body_guard t runno captured w) eqn:EG; [|discriminate E]. cbn [negb] in E.
@@ -187,3 +187,49 @@ Proof.
 Qed.
 
 End Closed.
+
+(* closed invariants are closed under conjunction and under quantification over a parameter *)
+Lemma closed_and (P : program) (A B : world -> Prop) : closed P A -> closed P B -> closed P (fun w => A w /\ B w).
+Proof.
+  intros HA HB. constructor.
+  - intros e w [H1 H2]. split; [apply (c_emit _ _ HA)|apply (c_emit _ _ HB)]; assumption.
+  - intros c w [H1 H2]. split; [apply (c_prim _ _ HA)|apply (c_prim _ _ HB)]; assumption.
+  - intros o a w [H1 H2]. split; [apply (c_act _ _ HA)|apply (c_act _ _ HB)]; assumption.
+  - intros c w t su cl w' [H1 H2] E. split; [eapply (c_prepare _ _ HA)|eapply (c_prepare _ _ HB)]; eauto.
+  - intros e r w [H1 H2] E. split; [apply (c_gc _ _ HA)|apply (c_gc _ _ HB)]; assumption.
+  - intros w [H1 H2]. split; [apply (c_poll _ _ HA)|apply (c_poll _ _ HB)]; assumption.
+  - intros su t w w' [H1 H2] E. split; [eapply (c_setup _ _ HA)|eapply (c_setup _ _ HB)]; eauto.
+  - intros cl w [H1 H2]. split; [apply (c_cleanup _ _ HA)|apply (c_cleanup _ _ HB)]; assumption.
+  - intros b w [H1 H2]. split; [apply (c_buffer _ _ HA)|apply (c_buffer _ _ HB)]; assumption.
+  - intros n w [H1 H2]. split; [apply (c_counter _ _ HA)|apply (c_counter _ _ HB)]; assumption.
+  - intros t b w [H1 H2]. split; [apply (c_storage _ _ HA)|apply (c_storage _ _ HB)]; assumption.
+  - intros t k w [H1 H2] E. split; [apply (c_dropped _ _ HA)|apply (c_dropped _ _ HB)]; assumption.
+  - intros t k w [H1 H2] E. split; [apply (c_missing _ _ HA)|apply (c_missing _ _ HB)]; assumption.
+  - intros t w [H1 H2]. split; [apply (c_despawn _ _ HA)|apply (c_despawn _ _ HB)]; assumption.
+  - intros t cb b w [H1 H2] E Eb. split; [apply (c_cbbump _ _ HA)|apply (c_cbbump _ _ HB)]; assumption.
+  - intros t tk w [H1 H2]. split; [apply (c_oncefin _ _ HA)|apply (c_oncefin _ _ HB)]; assumption.
+  - intros sd t r c w HG [H1 H2]. split; [apply (c_body _ _ HA)|apply (c_body _ _ HB)]; assumption.
+  - intros w [H1 H2]. split; [apply (c_clear _ _ HA)|apply (c_clear _ _ HB)]; assumption.
+Qed.
+Lemma closed_forall (P : program) {X : Type} (A : X -> world -> Prop) : (forall x, closed P (A x)) -> closed P (fun w => forall x, A x w).
+Proof.
+  intros HA. constructor.
+  - intros e w H x. apply (c_emit _ _ (HA x)); auto.
+  - intros c w H x. apply (c_prim _ _ (HA x)); auto.
+  - intros o a w H x. apply (c_act _ _ (HA x)); auto.
+  - intros c w t su cl w' H E x. eapply (c_prepare _ _ (HA x)); eauto.
+  - intros e r w H E x. apply (c_gc _ _ (HA x)); auto.
+  - intros w H x. apply (c_poll _ _ (HA x)); auto.
+  - intros su t w w' H E x. eapply (c_setup _ _ (HA x)); eauto.
+  - intros cl w H x. apply (c_cleanup _ _ (HA x)); auto.
+  - intros b w H x. apply (c_buffer _ _ (HA x)); auto.
+  - intros n w H x. apply (c_counter _ _ (HA x)); auto.
+  - intros t b w H x. apply (c_storage _ _ (HA x)); auto.
+  - intros t k w H E x. apply (c_dropped _ _ (HA x)); auto.
+  - intros t k w H E x. apply (c_missing _ _ (HA x)); auto.
+  - intros t w H x. apply (c_despawn _ _ (HA x)); auto.
+  - intros t cb b w H E Eb x. apply (c_cbbump _ _ (HA x)); auto.
+  - intros t tk w H x. apply (c_oncefin _ _ (HA x)); auto.
+  - intros sd t r c w HG H x. apply (c_body _ _ (HA x)); auto.
+  - intros w H x. apply (c_clear _ _ (HA x)); auto.
+Qed.
